@@ -181,7 +181,7 @@ def gen_block(rng, kind, tr_ids=(), wild=False):
         return {'kind': 'rho', 'kw': 'rho', 'vals': [rng.choice(DENSITIES)]}
     if kind == 'mat':
         return {'kind': 'mat', 'kw': 'mat',
-                'vals': [str(rng.choice([1, 2, 3, 4, 5]))]}
+                'vals': [str(rng.choice([1, 2, 3, 4, 5, 0]))]}
     if kind == 'trcl':
         star = rng.random() < 0.3
         params = gen_params(rng, list(tr_ids), star, wild)
